@@ -1,2 +1,60 @@
-(* C03 -- placeholder until the theorems are stated; see DESIGN.md *)
-From NV Require Import Model.Matcher Spec.Matching.
+(* C03 -- The score is the fzf scoring scheme applied to the reported alignment.
+   Statements in Spec/Statements.v, proofs in Proofs/ScoreFacts.v.  fzf_score (Spec/Matching.v) is the
+   documented scheme with LITERAL constants (16, 3, 1, 10/9/8, 5, 4, doubled first bonus); the bonus
+   rule of the code (translated constants from score.rs / config.rs) is proved equal to the literal
+   table, so a changed constant or preset breaks C03_bonus_table / C03_presets at the next run.
+   "The score-only and the indices variants return the same value": one model function returns both
+   (the const-generic flag only guards writes to the index vector / back-pointer cells); the harness
+   runs both variants of every entry point on every case.
+   PARTIAL: C03_linear_score covers every algorithm that scores through calculate_score and the
+   single-character scorers (greedy, substring, prefix, postfix, exact, the equal-length and tight-window
+   shortcuts); the DP's score/alignment coherence is validated by the correspondence + fzf oracle
+   (exhaustively on small strings in the thorough tier), not yet proved. *)
+From Coq Require Import NArith List Bool.
+From NV Require Import Model.Matcher Spec.Matching Spec.Statements Proofs.ScoreFacts.
+Import ListNotations.
+Local Open Scope N_scope.
+
+Theorem C03_bonus_table : C03_bonus_table_stmt.
+Proof. exact ScoreFacts.C03_bonus_table. Qed.
+
+Theorem C03_presets : C03_presets_stmt.
+Proof. exact ScoreFacts.C03_presets. Qed.
+
+Theorem C03_linear_score : C03_linear_score_stmt.
+Proof. exact ScoreFacts.C03_linear_score_weak. Qed.
+
+Theorem C03_no_wrap : C03_no_wrap_stmt.
+Proof. exact ScoreFacts.C03_no_wrap_weak. Qed.
+
+(* the same alignment gets the same score from every (linear) algorithm: both equal fzf_score *)
+Theorem C03_same_alignment :
+  forall cfg a b hs ns ns' s s' idx, a <> Fuzzy -> b <> Fuzzy -> prefer_prefix cfg = false -> bonus_bounded cfg ->
+    lenN (cs ns) <= 2500 -> lenN (cs ns') <= 2500 ->
+    needle_ok cfg (rp ns) (cs ns) = true -> needle_ok cfg (rp ns') (cs ns') = true ->
+    run cfg a hs ns = Match s idx -> run cfg b hs ns' = Match s' idx -> s = s'.
+Proof.
+  intros cfg a b hs ns ns' s s' idx Ha Hb Hp Hbb Hl Hl' Hok Hok' R R'.
+  rewrite (ScoreFacts.C03_linear_score_weak cfg a hs ns s idx Ha Hp Hbb Hl Hok R).
+  rewrite (ScoreFacts.C03_linear_score_weak cfg b hs ns' s' idx Hb Hp Hbb Hl' Hok' R'). reflexivity.
+Qed.
+
+(* the first formulations are refuted: needle_ok and the bonus bound are necessary *)
+Theorem C03_naive_statements_refuted : ~ C03_linear_score_naive_stmt /\ ~ C03_no_wrap_naive_stmt.
+Proof. split; [exact ScoreFacts.C03_linear_score_counterexample | exact ScoreFacts.C03_no_wrap_counterexample]. Qed.
+
+Example C03_nonvacuous :
+  let cfg := config_of preset_default true true false in
+  let hs := {| rp := Ascii; cs := [102; 111; 111; 45; 98; 97; 114] |} in     (* "foo-bar" *)
+  let ns := {| rp := Ascii; cs := [102; 98] |} in
+  bonus_bounded cfg /\ needle_ok cfg (rp ns) (cs ns) = true /\
+  run cfg FuzzyGreedy hs ns = Match (fzf_score cfg Ascii (cs hs) [0; 4]) [0; 4] /\
+  fzf_score cfg Ascii (cs hs) [0; 4] = 16 + 2 * 10 - (3 + 2) + 16 + 8.
+Proof. vm_compute. repeat split; try reflexivity; discriminate. Qed.
+
+Print Assumptions C03_bonus_table.
+Print Assumptions C03_presets.
+Print Assumptions C03_linear_score.
+Print Assumptions C03_no_wrap.
+Print Assumptions C03_same_alignment.
+Print Assumptions C03_naive_statements_refuted.
